@@ -710,6 +710,12 @@ func (e *Env) call(x *ECall) CV {
 			v = *c.ghostInit
 		}
 		return cvOf(v)
+	case "zero":
+		s, ok := x.Args[0].(*EStr)
+		if !ok {
+			unsupp("contract: zero(\"T\")")
+		}
+		return cvOf(zeroVal(shapeOf(e.resolveType(s.V))))
 	case "haskey":
 		m, k := arg(0), arg(1)
 		if m.k != cvVal || m.v.sh.kind != KMap {
@@ -844,7 +850,12 @@ func (e *Env) callSpecFn(sf *SpecFn, args []CV) CV {
 	fx.emitSpecFn(sf)
 	var flat []T
 	for i, p := range sf.Params {
-		flat = append(flat, flattenCV(args[i], e.specTypeOf(p.Type))...)
+		pt := e.specTypeOf(p.Type)
+		if pt.k == cvStr && args[i].k == cvVal && args[i].v.sh.kind == KSlice {
+			a := args[i].v
+			args[i] = CV{k: cvStr, arr: fx.sliceBacking(e.st, a.sh.elem, a.slRef(), 0), off: a.slOff(), n: a.slLen()}
+		}
+		flat = append(flat, flattenCV(args[i], pt)...)
 	}
 	rt := e.specTypeOf(sf.Result)
 	name := "|sf." + sf.Name + "|"
